@@ -120,6 +120,26 @@ func implRender(src string, ctx pongo2.Context) (r renderOut) {
 	return renderOut{Out: out}
 }
 
+// implRenderFiles is implRender with named files next to the source
+func implRenderFiles(src string, files map[string]string, ctx pongo2.Context) (r renderOut) {
+	defer func() {
+		if p := recover(); p != nil {
+			r.Panicked = true
+			r.PanicMsg = fmt.Sprint(p)
+		}
+	}()
+	set := pongo2.NewSet("t", &memLoader{files: files})
+	tpl, err := set.FromString(src)
+	if err != nil {
+		return renderOut{Err: "compile", ErrMsg: err.Error()}
+	}
+	out, err := tpl.Execute(ctx)
+	if err != nil {
+		return renderOut{Err: "exec", ErrMsg: err.Error()}
+	}
+	return renderOut{Out: out}
+}
+
 // implRenderVia compiles src through another entry point of the set and executes it once.
 // "bytes": FromBytes with a buffer the caller reuses for something else before executing;
 // "file": FromFile through the loader; "cache": FromCache (twice, second is the cached one).
